@@ -8,7 +8,7 @@ KIND = 'streett'
 LEVEL = 'other'
 TRUSTED = [
     'SpecBDD (assumed dd contract); z3; CPython executes the re-extracted text',
-    'iterate facts of the solver (x[j][r][k] fixpoint equations, y[j][r] unions, z <= y[j][last]) are the ASSUMED precondition of the transducer contract for the closure / non-blocking obligations; they are validated at run time by the monitor, not proved',
+    'iterate facts of the solver (x[j][r][k] fixpoint equations, y[j][r] unions, z <= y[j][last]) are the precondition of the transducer contract for the closure / non-blocking obligations; they are ENSURED by the solver contracts of C01 as loop invariants on the last adjacent pair of the append-only lists (all pairs by induction on the list length: a meta-step) and additionally evaluated explicitly by the monitor',
     'lemma L2 (a play through a finite graph whose every step satisfies the rank conditions satisfies the liveness condition): assumed; liveness is only checked by the bounded monitor',
     'explicit-state closed-loop analysis (contracts/gr1_monitor.py) is specification',
 ]
